@@ -972,16 +972,10 @@ func handleZREMRANGEBYRANK(params internal.HandlerFuncParams) ([]byte, error) {
 
 	deletedCount := 0
 
-	if start < stop {
-		for i := start; i <= stop; i++ {
-			set.Remove(members[i].Value)
-			deletedCount += 1
-		}
-	} else {
-		for i := stop; i <= start; i++ {
-			set.Remove(members[i].Value)
-			deletedCount += 1
-		}
+	// A range whose start lies after its stop is empty.
+	for i := start; i <= stop; i++ {
+		set.Remove(members[i].Value)
+		deletedCount += 1
 	}
 
 	return []byte(fmt.Sprintf(":%d\r\n", deletedCount)), nil
